@@ -1,2 +1,245 @@
-/- driver stub for C19: replaced when the model exists -/
-def main : IO Unit := pure ()
+/- driver for C19: router information cache + node learning paths (stateful) -/
+import BacVerif.Drv.Common
+import BacVerif.Model.RouterCache
+open Lean BacVerif BacVerif.Drv BacVerif.RouterCache
+
+/-! ### canonical digests (must match harness/c19.py: `cache_digest`, `node_digest`) -/
+
+def netStr : Net → String
+  | none => "-"
+  | some n => toString n
+
+def netKey : Net → Nat
+  | none => 0
+  | some n => n + 1
+
+def riStr (a : Nat) (ri : RouterInfo) : String :=
+  let ds := (items ri.dnets).mergeSort (fun x y => x.1 ≤ y.1)
+  let body := ",".intercalate (ds.map fun (d, st) => s!"{d}={st}")
+  let st := match ri.status with | none => "" | some n => s!"~{n}"
+  s!"{a}({body}){st}"
+
+def cacheDigest (c : Cache Nat) : String :=
+  let nets := (items c.routers).mergeSort (fun x y => netKey x.1 ≤ netKey y.1)
+  let rs := nets.map fun (s, rs) =>
+    let rs' := (items rs).mergeSort (fun x y => x.1 ≤ y.1)
+    netStr s ++ "{" ++ ";".intercalate (rs'.map fun (a, ri) => riStr a ri) ++ "}"
+  let ps := (items c.pathInfo).mergeSort (fun x y =>
+    netKey x.1.1 < netKey y.1.1 || (netKey x.1.1 == netKey y.1.1 && x.1.2 ≤ y.1.2))
+  let pstr := ",".intercalate (ps.map fun ((s, d), a) => s!"{netStr s}/{d}>{a}")
+  "".intercalate rs ++ "|" ++ pstr
+
+def nodeDigest (n : Node Nat) : String :=
+  let ports := ",".intercalate (n.ports.map fun p =>
+    netStr p.net ++ ":" ++ (match p.cfg with | none => "-" | some k => toString k))
+  let ads := ",".intercalate ((items n.adapters).map fun (s, p) => s!"{netStr s}>{p}")
+  let pend := (items n.pending).mergeSort (fun x y => x.1 ≤ y.1)
+  let pstr := ",".intercalate (pend.map fun (d, k) => s!"{d}*{k}")
+  s!"[{ports}][{ads}]L{n.localPort}[{pstr}]" ++ cacheDigest n.cache
+
+/-! ### request decoding -/
+
+def jNet (j : Json) : R Net :=
+  match j with
+  | Json.null => pure none
+  | v => do pure (some (← v.getNat?))
+
+def jNats (j : Json) : R (List Nat) := do
+  let a ← j.getArr?
+  a.toList.mapM (fun x => x.getNat?)
+
+def jOptNat (j : Json) : R (Option Nat) :=
+  match j with
+  | Json.null => pure none
+  | v => do pure (some (← v.getNat?))
+
+def jOptNats (j : Json) : R (Option (List Nat)) :=
+  match j with
+  | Json.null => pure none
+  | v => do pure (some (← jNats v))
+
+def arg (a : Array Json) (i : Nat) : R Json :=
+  match a[i]? with
+  | some v => pure v
+  | none => throw s!"missing argument {i}"
+
+/-- ["u",s,a,[ds],st] | ["s",s,a,st] | ["d",s,a|null,[ds]|null] | ["r",old,new] -/
+def opOfJson (j : Json) : R (Op Nat) := do
+  let a ← j.getArr?
+  match ← (← arg a 0).getStr? with
+  | "u" => pure (.update (← jNet (← arg a 1)) (← (← arg a 2).getNat?) (← jNats (← arg a 3))
+                   (← (← arg a 4).getNat?))
+  | "s" => pure (.status (← jNet (← arg a 1)) (← (← arg a 2).getNat?) (← (← arg a 3).getNat?))
+  | "d" => pure (.delete (← jNet (← arg a 1)) (← jOptNat (← arg a 2)) (← jOptNats (← arg a 3)))
+  | "r" => pure (.renumber (← jNet (← arg a 1)) (← jNet (← arg a 2)))
+  | k => throw s!"unknown cache op {k}"
+
+/-- ["iam",port,src,[nets]] | ["routed",port,src,snet] | ["nni",port,net,flag,bcast]
+    | ["forget",snet,a|null,[ds]|null] | ["orig",dnet,dst] -/
+def evOfJson (j : Json) : R (Ev Nat) := do
+  let a ← j.getArr?
+  match ← (← arg a 0).getStr? with
+  | "iam" => pure (.iam (← (← arg a 1).getNat?) (← (← arg a 2).getNat?) (← jNats (← arg a 3)))
+  | "routed" => pure (.routed (← (← arg a 1).getNat?) (← (← arg a 2).getNat?) (← (← arg a 3).getNat?))
+  | "nni" => pure (.nni (← (← arg a 1).getNat?) (← (← arg a 2).getNat?) (← (← arg a 3).getNat?)
+                    ((← (← arg a 4).getNat?) != 0))
+  | "forget" => pure (.forget (← jNet (← arg a 1)) (← jOptNat (← arg a 2)) (← jOptNats (← arg a 3)))
+  | "orig" => pure (.originate (← (← arg a 1).getNat?) (← (← arg a 2).getNat?))
+  | k => throw s!"unknown node event {k}"
+
+def nodeOfJson (j : Json) : R (Node Nat) := do
+  let ports ← (← fldArr j "ports").toList.mapM fun p => do
+    let a ← p.getArr?
+    pure ({ net := ← jNet (← arg a 0), cfg := ← jOptNat (← arg a 1) } : Port)
+  let ads ← (← fldArr j "adapters").toList.mapM fun p => do
+    let a ← p.getArr?
+    pure ((← jNet (← arg a 0)), (← (← arg a 1).getNat?))
+  pure { ports := ports, adapters := ads, localPort := ← fldNat j "local", cache := Cache.empty }
+
+/-! ### replies -/
+
+def jNetJ : Net → Json
+  | none => Json.null
+  | some n => Json.num n
+
+def frameJson : Frame Nat → Json
+  | .apdu p dst dn =>
+    Json.arr #["apdu", Json.num p,
+      (match dst with | .station a => Json.num a | .broadcast => Json.null), jNatOpt dn]
+  | .whoIs p d => Json.arr #["whois", Json.num p, Json.num d]
+  | .iAm p nets => Json.arr #["iam", Json.num p, Json.arr (nets.map (fun (n : Nat) => Json.num (n : JsonNumber))).toArray]
+
+def outFields (o : Out Nat) : List (String × Json) :=
+  [("out", Json.arr (o.frames.map frameJson).toArray),
+   ("raised", match o.raised with | none => Json.null | some e => Json.str e.name)]
+
+/-- branch path of a cache operation (coverage only) -/
+def brOf (c : Cache Nat) : Op Nat → String
+  | .update s a ds _ =>
+    let ex := rget c s a
+    let others := otherRouters c s (ex.map fun _ => a) ds
+    s!"upd:{if ex.isSome then "old" else "new"}:o{others.length}:n{min ds.length 3}"
+  | .status s a _ => s!"sts:{if (rget c s a).isSome then "hit" else "miss"}"
+  | .delete s a ds =>
+    match a, ds with
+    | none, none => "del:inconsistent"
+    | some a, ds =>
+      match rget c s a with
+      | none => "del:addr:miss"
+      | some ri =>
+        let eff := effectiveDnets ds ri
+        let left := (items ri.dnets).filter (fun e => !(eff.contains e.1))
+        s!"del:addr:{match ds with | none => "all" | some [] => "empty" | some _ => "some"}:" ++
+          (if left.isEmpty then "gone" else "kept")
+    | none, some ds => s!"del:dnets:o{(otherRouters c s none ds).length}"
+  | .renumber o n =>
+    match aget o c.routers with
+    | none => "ren:absent"
+    | some _ =>
+      if o = n then "ren:same"
+      else match aget n c.routers with
+        | none => "ren:free"
+        | some rs => if rs.isEmpty then "ren:free0" else "ren:occupied"
+
+structure St where
+  cache : Cache Nat := Cache.empty
+  node0 : Node Nat := { ports := [], adapters := [], localPort := 0, cache := Cache.empty }
+  node : Node Nat := { ports := [], adapters := [], localPort := 0, cache := Cache.empty }
+
+/-- digest after a history, or the first failure -/
+def runDigest (c : Cache Nat) : List (Op Nat) → String
+  | [] => cacheDigest c
+  | op :: ops =>
+    match step c op with
+    | .ok c' => runDigest c' ops
+    | .error e => "err:" ++ e.name
+
+/-- DFS preorder over all words of length ≤ depth, sharing prefixes -/
+partial def enumCache (alpha : Array (Op Nat)) (depth : Nat) (c : Except RErr (Cache Nat))
+    (acc : Array Json) : Array Json :=
+  let me : String := match c with | .ok c => cacheDigest c | .error e => "err:" ++ e.name
+  let acc := acc.push (Json.str me)
+  if depth = 0 then acc
+  else
+    alpha.foldl (fun acc op =>
+      let c' := match c with | .ok c => step c op | .error e => .error e
+      enumCache alpha (depth - 1) c' acc) acc
+
+def probeNode (n : Node Nat) (probes : List (Nat × Nat)) : Json :=
+  -- all probes run one after the other on the same node (as on the real node)
+  let r := probes.foldl (fun (acc : Node Nat × Array Json) (d, dst) =>
+    let (n', o) := nodeStep acc.1 (.originate d dst)
+    (n', acc.2.push (Json.mkObj (outFields o)))) (n, #[])
+  Json.mkObj [("p", Json.arr r.2), ("d", Json.str (nodeDigest r.1))]
+
+partial def enumNode (alpha : Array (Ev Nat)) (depth : Nat) (probes : List (Nat × Nat))
+    (n : Node Nat) (raised : Array Json) (acc : Array Json) : Array Json :=
+  let acc := acc.push (Json.mkObj [("h", Json.str (nodeDigest n)), ("x", Json.arr raised),
+                                   ("probe", probeNode n probes)])
+  if depth = 0 then acc
+  else
+    alpha.foldl (fun acc ev =>
+      let (n', o) := nodeStep n ev
+      let raised' := raised.push (match o.raised with | none => Json.null | some e => Json.str e.name)
+      enumNode alpha (depth - 1) probes n' raised' acc) acc
+
+def jPairs (j : Json) : R (List (Nat × Nat)) := do
+  let a ← j.getArr?
+  a.toList.mapM fun p => do
+    let q ← p.getArr?
+    pure ((← (← arg q 0).getNat?), (← (← arg q 1).getNat?))
+
+def handle (st : St) (j : Json) : R (St × Json) := do
+  match ← fldStr j "op" with
+  | "reset" => pure ({ st with cache := Cache.empty, node := st.node0 }, jOk [])
+  | "node" =>
+      let n ← nodeOfJson j
+      pure ({ st with node0 := n, node := n }, jOk [("d", Json.str (nodeDigest n))])
+  | "c" =>
+      let op ← opOfJson (← fld j "o")
+      let br := brOf st.cache op
+      match step st.cache op with
+      | .ok c => pure ({ st with cache := c }, jOk [("d", Json.str (cacheDigest c)), ("br", Json.str br)])
+      | .error e =>
+          pure (st, Json.mkObj [("r", "err"), ("k", e.name), ("d", Json.str (cacheDigest st.cache)),
+                                ("br", Json.str br)])
+  | "get" =>
+      let s ← jNet (← fld j "s")
+      let d ← fldNat j "d"
+      match getRouterInfo st.cache s d with
+      | none => pure (st, jOk [("a", Json.null), ("dn", Json.null)])
+      | some (a, none) => pure (st, jOk [("a", Json.num a), ("dn", Json.null)])
+      | some (a, some ri) =>
+          let ds := (items ri.dnets).mergeSort (fun x y => x.1 ≤ y.1)
+          pure (st, jOk [("a", Json.num a),
+            ("dn", Json.arr (ds.map fun (d, s) => Json.arr #[Json.num d, Json.num s]).toArray)])
+  | "enum" =>
+      let alpha ← (← fldArr j "alpha").mapM opOfJson
+      let pre ← jNats (← fld j "prefix")
+      let depth ← fldNat j "depth"
+      let ops ← pre.mapM fun i => match alpha[i]? with
+        | some o => pure o
+        | none => throw "prefix index out of range"
+      let c0 : Except RErr (Cache Nat) := ops.foldl (fun c op =>
+        match c with | .ok c => step c op | .error e => .error e) (.ok Cache.empty)
+      pure (st, jOk [("ds", Json.arr (enumCache alpha depth c0 #[]))])
+  | "n" =>
+      let ev ← evOfJson (← fld j "e")
+      let (n, o) := nodeStep st.node ev
+      pure ({ st with node := n }, jOk (outFields o ++ [("d", Json.str (nodeDigest n))]))
+  | "nenum" =>
+      let alpha ← (← fldArr j "alpha").mapM evOfJson
+      let pre ← jNats (← fld j "prefix")
+      let depth ← fldNat j "depth"
+      let probes ← jPairs (← fld j "probes")
+      let evs ← pre.mapM fun i => match alpha[i]? with
+        | some o => pure o
+        | none => throw "prefix index out of range"
+      let r := evs.foldl (fun (acc : Node Nat × Array Json) ev =>
+        let (n', o) := nodeStep acc.1 ev
+        (n', acc.2.push (match o.raised with | none => Json.null | some e => Json.str e.name)))
+        (st.node0, #[])
+      pure (st, jOk [("hs", Json.arr (enumNode alpha depth probes r.1 r.2 #[]))])
+  | op => throw s!"unknown op {op}"
+
+def main : IO Unit := loopS ({} : St) handle
